@@ -12,7 +12,7 @@ import subprocess
 import sys
 import time
 
-REPO = os.environ.get("XDEPS_REPO_BUILD", "/repo")
+REPO = os.environ.get("XDEPS_REPO", "/repo")
 WORK = os.path.join(os.path.dirname(os.path.dirname(os.path.abspath(__file__))), ".work")
 PY = "/venv/bin/python"
 
